@@ -81,6 +81,9 @@ KNOWN = {
     # format_struct_pos_shape: equal axis lengths with d*L == field size or
     # d*L == prod(shape[1:]) (2x2, 3x3x3) are misread as 1-D
     "N5_struct_equal_axes": True,
+    # BoxCoxShift.fit of both parameters may end where data are out of range or the
+    # likelihood overflows (class doc: "Fitting the shift parameter is rather hard")
+    "O1_boxcoxshift_two_parameter_fit": True,
 }
 
 FAM = R.FAMILIES
@@ -948,11 +951,21 @@ def check_fit(case, rec):
             dict(tags, kind="fit_result"),
         )
         lam, sh = float(norm.lmbda), float(norm.shift)
-        if not (math.isfinite(lam) and math.isfinite(sh)) or not np.all(xa + sh > 0):
-            rec.label("fit2:shift_invalidates_data")
-            rec.nontrivial(False)
-            return
-        ll_end = np_loglik(cls, lam, sh, xa)
+        ok_par = math.isfinite(lam) and math.isfinite(sh) and bool(np.all(xa + sh > 0))
+        ll_end = np_loglik(cls, lam, sh, xa) if ok_par else math.nan
+        if not math.isfinite(ll_end):
+            # the optimiser left the region where all data are valid / the likelihood is
+            # finite (documented: "Fitting the shift parameter is rather hard")
+            rec.label("fit2:invalid_result")
+            if _known("O1_boxcoxshift_two_parameter_fit", case):
+                rec.exclude("O1_boxcoxshift_two_parameter_fit")
+                rec.nontrivial(False)
+                return
+            raise Violation(
+                f"BoxCoxShift.fit (both parameters) returns lmbda={lam!r}, shift={sh!r}: "
+                + ("likelihood not finite" if ok_par else "data outside the valid range (-shift, inf)"),
+                tags=dict(tags, kind="fit2_invalid_result"),
+            )
         require(
             ll_end >= ll_start - 1e-9 * (1 + abs(ll_start)),
             f"BoxCoxShift.fit (both parameters): log-likelihood {ll_end!r} at the result (lmbda={lam!r}, shift={sh!r}) "
@@ -1626,10 +1639,10 @@ def _g(direction):
 
 
 SUBS = [
-    Sub("roundtrip", _g("fwd"), check_maps, quick=4000, thorough=60000, shards_quick=2, shards_thorough=4),
-    Sub("inverse", _g("inv"), check_maps, quick=4000, thorough=60000, shards_quick=2, shards_thorough=4),
-    Sub("monotone", gen_monotone, check_monotone, quick=1600, thorough=20000, shards_quick=1, shards_thorough=2),
-    Sub("derivative", gen_derivative, check_derivative, quick=2000, thorough=30000, shards_quick=1, shards_thorough=2),
+    Sub("roundtrip", _g("fwd"), check_maps, quick=4000, thorough=45000, shards_quick=2, shards_thorough=4),
+    Sub("inverse", _g("inv"), check_maps, quick=4000, thorough=45000, shards_quick=2, shards_thorough=4),
+    Sub("monotone", gen_monotone, check_monotone, quick=1600, thorough=15000, shards_quick=1, shards_thorough=3),
+    Sub("derivative", gen_derivative, check_derivative, quick=2000, thorough=24000, shards_quick=1, shards_thorough=3),
     Sub("loglik", gen_loglik, check_loglik, quick=1600, thorough=16000, shards_quick=2, shards_thorough=4),
     Sub("fit", gen_fit, check_fit, quick=450, thorough=6000, shards_quick=3, shards_thorough=6, shrink_quick=False),
     Sub("pipe_tools", gen_pipe_tools, check_pipe_tools, quick=1600, thorough=16000, shards_quick=2, shards_thorough=4),
